@@ -81,7 +81,7 @@ def judge(case, part):
     errors = m["errors"]
     config = tuple(case["config"])
     table = case["table"]
-    columns = len(table[0])
+    columns = len(table[0]) if table else 1
     try:
         cid = harness.make_cid(cid_rows(config, columns))
     except errors.InterfaceError:
@@ -169,6 +169,9 @@ def work(item):
                 judge({"config": list(config), "table": table, "path": "rowio"}, part)
         part.outcome("round-trip-same")
         api_tables = [t for t in tables if len(t) == 1 and len(t[0]) <= 2][: (80 if tier == "quick" else 10**6)]
+        # the table without rows, through every path
+        for path in ("rowio", "api", "file"):
+            judge({"config": list(config), "table": [], "path": path}, part)
         for table in api_tables:
             judge({"config": list(config), "table": table, "path": "api"}, part)
         file_tables = api_tables
